@@ -147,10 +147,35 @@ def gen_file(rng, tag, local):
 def gen_layout(rng):
     files = {}
     ents = []
+    by_file = {}
     for tag, path, local in FILES:
         text, es = gen_file(rng, tag, local)
         files[path] = text
         ents += es
+        by_file[path] = es
     files["main.h"] = '#include "cwdinc.h"\n#include "incdir.h"\n#include <sysdir.h>\n' + files["main.h"]
     files["sub/b.h"] = '#include "beside.h"\n' + files["sub/b.h"]
+    # a command (.N) file next to main.h
+    cmds = []
+    if rng.random() < 0.6:
+        local_methods = [e for e in ents if e.kind == "method" and e.attrs.get("local") and not e.attrs.get("hidden_class")]
+        if local_methods and rng.random() < 0.7:
+            victim = rng.choice(local_methods)
+            simple = victim.name.rsplit("::", 1)[1]
+            cmds.append("ignoremember " + simple)
+            for e in ents:
+                if e.kind == "method" and e.name.rsplit("::", 1)[1] == simple:
+                    e.attrs["ignoremember"] = True
+        if rng.random() < 0.4:
+            cmds.append("ignorefile cwdinc.h")
+            for e in by_file["cwdinc.h"]:
+                e.attrs["local"] = False          # `_source != S_local || in_ignorefile(...)` is one guard
+        if rng.random() < 0.3:
+            cls = rng.choice(["MainC", "SubC"])
+            cmds.append("ignoretype " + cls)
+            for e in ents:
+                if e.name == cls or e.cls == cls:
+                    e.attrs["ignoretype"] = True
+    if cmds:
+        files["main.N"] = "".join(c + "\n" for c in cmds)
     return files, ents
